@@ -96,22 +96,28 @@ class HTTP(BaseComponent):
     def _on_stream(self, res, data):
         sock = res.request.sock
 
+        if res.done:
+            # Nothing may follow a completed response (HEAD, 204, 304, ...)
+            return
+
         if data is not None:
             if isinstance(data, str):
                 data = data.encode(self._encoding)
 
-            if res.chunked:
-                buf = [
-                    hex(len(data))[2:].encode(self._encoding),
-                    b'\r\n',
-                    data,
-                    b'\r\n',
-                ]
-                data = b''.join(buf)
+            # An empty chunk would be the terminator of a chunked body
+            if data:
+                if res.chunked:
+                    buf = [
+                        hex(len(data))[2:].encode(self._encoding),
+                        b'\r\n',
+                        data,
+                        b'\r\n',
+                    ]
+                    data = b''.join(buf)
 
-            self.fire(write(sock, data))
+                self.fire(write(sock, data))
 
-            if res.body and not res.done:
+            if hasattr(res.body, '__next__') and not res.done:
                 try:
                     data = next(res.body)
                     while not data:  # Skip over any null byte sequences
@@ -120,7 +126,7 @@ class HTTP(BaseComponent):
                     data = None
                 self.fire(stream(res, data))
         else:
-            if res.body:
+            if hasattr(res.body, 'close'):
                 res.body.close()
             if res.chunked:
                 self.fire(write(sock, b'0\r\n\r\n'))
@@ -152,9 +158,18 @@ class HTTP(BaseComponent):
         res.prepare()
         self.fire(write(sock, b'%s%s' % (bytes(res), bytes(headers))))
 
-        if req.method == 'HEAD':
+        if req.method == 'HEAD' or res.status < 200 or res.status in (204, 304):
+            # No message body (RFC 7230 3.3.3): discard what the application
+            # produced and complete the response.
+            if hasattr(res.body, 'close'):
+                res.body.close()
+            if res.close:
+                self.fire(close(sock))
+            if sock in self._clients:
+                del self._clients[sock]
+            res.done = True
             return
-        if res.stream and res.body:
+        if res.stream and hasattr(res.body, '__next__'):
             try:
                 data = next(res.body)
             except StopIteration:
@@ -181,8 +196,10 @@ class HTTP(BaseComponent):
 
                 self.fire(write(sock, body))
 
-                if res.chunked:
-                    self.fire(write(sock, b'0\r\n\r\n'))
+            # A streamed response is completed by a ``stream`` event with
+            # ``None``; any other is complete now, even if it is empty.
+            if res.chunked and not res.stream:
+                self.fire(write(sock, b'0\r\n\r\n'))
 
             if not res.stream:
                 if res.close:
